@@ -33,6 +33,19 @@ import (
 	"github.com/hashicorp/consul/internal/verifharness/hx"
 )
 
+// violate records a monitor violation; at most 3 per signature, so that every distinct
+// signature fits into the recorder's bounded list.
+var sigCount = map[string]int{}
+
+func violate(run *hx.Run, sig, desc string, replay []string) {
+	sigCount[sig]++
+	if sigCount[sig] <= 3 {
+		run.Violate(sig, desc, replay)
+	} else {
+		run.Tag("violation:" + sig)
+	}
+}
+
 // ---------------------------------------------------------------- data
 
 type ixn struct {
@@ -432,7 +445,7 @@ func interrogate(run *hx.Run, t *sut, names []string, peers []string) transcript
 	for _, o := range listed {
 		k := o.peer + "\x00" + o.src + "\x00" + o.dst
 		if keys[k] {
-			run.Violate("store:duplicate-intention-key", fmt.Sprintf("two stored intentions for %s/%s -> %s", o.peer, o.src, o.dst), replay("list"))
+			violate(run, "store:duplicate-intention-key", fmt.Sprintf("two stored intentions for %s/%s -> %s", o.peer, o.src, o.dst), replay("list"))
 		}
 		keys[k] = true
 		if o.odd != "" {
@@ -466,7 +479,7 @@ func interrogate(run *hx.Run, t *sut, names []string, peers []string) transcript
 				if amb {
 					run.Tag("oracle:ambiguous")
 				} else if want := expected(best, def, ap); got != want {
-					run.Violate("decision:check-path-not-most-specific", fmt.Sprintf("check %s -> %s (default %v): got %s, the most specific intention gives %s", s, d, def, got.enc(), want.enc()), replay(op))
+					violate(run, "decision:check-path-not-most-specific", fmt.Sprintf("check %s -> %s (default %v): got %s, the most specific intention gives %s", s, d, def, got.enc(), want.enc()), replay(op))
 				}
 				tagDecision(run, "check", best, got)
 				if best != nil {
@@ -480,10 +493,10 @@ func interrogate(run *hx.Run, t *sut, names []string, peers []string) transcript
 					if ambA {
 						run.Tag("oracle:ambiguous")
 					} else if want := expected(bestA, def, ap); gotA != want {
-						run.Violate("decision:authz-path-not-most-specific", fmt.Sprintf("authz %s/%s -> %s (default %v): got %s, the most specific intention gives %s", p, s, d, def, gotA.enc(), want.enc()), replay(opA))
+						violate(run, "decision:authz-path-not-most-specific", fmt.Sprintf("authz %s/%s -> %s (default %v): got %s, the most specific intention gives %s", p, s, d, def, gotA.enc(), want.enc()), replay(opA))
 					}
 					if p == "" && gotA != got {
-						run.Violate("path:check-and-authz-disagree", fmt.Sprintf("%s -> %s: check says %s, authorize says %s", s, d, got.enc(), gotA.enc()), replay(opA))
+						violate(run, "path:check-and-authz-disagree", fmt.Sprintf("%s -> %s: check says %s, authorize says %s", s, d, got.enc(), gotA.enc()), replay(opA))
 					}
 					if p != "" {
 						tagDecision(run, "authz-peer", bestA, gotA)
@@ -510,10 +523,10 @@ func tagDecision(run *hx.Run, path string, best *obs, got verdict) {
 func checkSorted(run *hx.Run, what string, xs []obs, replay []string) {
 	for k, x := range xs {
 		if x.prec != precTable[specificity(x)] {
-			run.Violate("match:precedence-number", fmt.Sprintf("%s/%s -> %s has precedence %d, expected %d", x.peer, x.src, x.dst, x.prec, precTable[specificity(x)]), replay)
+			violate(run, "match:precedence-number", fmt.Sprintf("%s/%s -> %s has precedence %d, expected %d", x.peer, x.src, x.dst, x.prec, precTable[specificity(x)]), replay)
 		}
 		if k > 0 && specificity(xs[k-1]) < specificity(x) {
-			run.Violate("match:"+what+"-not-in-precedence-order", fmt.Sprintf("%s listed before %s", xs[k-1].content(), x.content()), replay)
+			violate(run, "match:"+what+"-not-in-precedence-order", fmt.Sprintf("%s listed before %s", xs[k-1].content(), x.content()), replay)
 		}
 	}
 }
@@ -531,7 +544,7 @@ func checkMatch(run *hx.Run, side, n string, listed, got []obs, replay []string)
 	for _, o := range got {
 		have[o.content()] = true
 		if !covers(o) {
-			run.Violate("match:returns-non-matching-intention", fmt.Sprintf("match %s %s returned %s", side, n, o.content()), replay)
+			violate(run, "match:returns-non-matching-intention", fmt.Sprintf("match %s %s returned %s", side, n, o.content()), replay)
 		}
 		if side == "s" && o.peer != "" {
 			// source matches are documented as local-only, yet a peer source rides along when the same
@@ -541,7 +554,7 @@ func checkMatch(run *hx.Run, side, n string, listed, got []obs, replay []string)
 	}
 	for _, o := range listed {
 		if covers(o) && (side == "d" || o.peer == "") && !have[o.content()] {
-			run.Violate("match:misses-matching-intention", fmt.Sprintf("match %s %s does not return %s", side, n, o.content()), replay)
+			violate(run, "match:misses-matching-intention", fmt.Sprintf("match %s %s does not return %s", side, n, o.content()), replay)
 		}
 	}
 	if len(got) == 0 {
@@ -559,7 +572,7 @@ func compareTranscripts(run *hx.Run, sig string, a, b transcript, opsA, opsB []s
 				other = b.lines[k]
 			}
 			kind := strings.SplitN(a.lines[k], " ", 2)[0]
-			run.Violate(sig+":"+kind, fmt.Sprintf("same set of intentions, different answer: %q vs %q", a.lines[k], other),
+			violate(run, sig+":"+kind, fmt.Sprintf("same set of intentions, different answer: %q vs %q", a.lines[k], other),
 				append(append(append([]string(nil), opsA...), "# versus"), opsB...))
 			return
 		}
@@ -568,7 +581,8 @@ func compareTranscripts(run *hx.Run, sig string, a, b transcript, opsA, opsB []s
 
 // ---------------------------------------------------------------- generators
 
-var universe = []string{"web", "api", "we", "web2", "db", "a"}
+// prefixes of each other, ASCII punctuation around '0', a multi-byte name: the tie-break is bytewise
+var universe = []string{"web", "api", "we", "web2", "db", "a", "web-1", "web.1", "é"}
 var peerPool = []string{"p1", "p"}
 
 func pickNames(r *hx.RNG, k int) []string {
@@ -664,7 +678,7 @@ func build(run *hx.Run, r *hx.RNG, style string, set []ixn, perm []int) *sut {
 		t := newSUT(run, true)
 		for _, k := range perm {
 			if out := t.up(run, set[k]); out != "ok" {
-				run.Violate("write:valid-upsert-rejected", out, t.ops)
+				violate(run, "write:valid-upsert-rejected", out, t.ops)
 			}
 		}
 		return t
@@ -681,7 +695,7 @@ func build(run *hx.Run, r *hx.RNG, style string, set []ixn, perm []int) *sut {
 		}
 		for _, d := range order {
 			if out := t.ent(run, d, groups[d]); out != "ok" {
-				run.Violate("write:valid-entry-rejected", out, t.ops)
+				violate(run, "write:valid-entry-rejected", out, t.ops)
 			}
 		}
 		return t
@@ -693,7 +707,7 @@ func build(run *hx.Run, r *hx.RNG, style string, set []ixn, perm []int) *sut {
 			x := set[k]
 			x.id = ids[n%len(ids)]
 			if out := t.lset(run, x); out != "ok" {
-				run.Violate("write:valid-legacy-row-rejected", out, t.ops)
+				violate(run, "write:valid-legacy-row-rejected", out, t.ops)
 			}
 		}
 		return t
@@ -705,7 +719,7 @@ func build(run *hx.Run, r *hx.RNG, style string, set []ixn, perm []int) *sut {
 			x := set[k]
 			x.id = ids[n%len(ids)]
 			if out := t.lcreate(run, x); out != "ok" {
-				run.Violate("write:valid-legacy-create-rejected", out, t.ops)
+				violate(run, "write:valid-legacy-create-rejected", out, t.ops)
 			}
 		}
 		return t
@@ -754,7 +768,7 @@ func permCase(run *hx.Run, r *hx.RNG, set []ixn, names []string, styles []string
 			tr := interrogate(run, t, names, peers)
 			nontriv = nontriv || tr.nontriv
 			if !sameSet(tr.listed, set) {
-				run.Violate("store:listed-set-differs-from-written-set", fmt.Sprintf("wrote %d intentions, store lists %s", len(set), stripIDs(tr.listed)), t.ops)
+				violate(run, "store:listed-set-differs-from-written-set", fmt.Sprintf("wrote %d intentions, store lists %s", len(set), stripIDs(tr.listed)), t.ops)
 			}
 			if first == nil {
 				first, firstOps = &tr, t.ops
@@ -919,6 +933,37 @@ func exhaustive(run *hx.Run, r *hx.RNG) {
 	run.Extra["exhaustive"] = map[string]any{"scope": "all key sets of size<=3 over src,dst in {a,b,*} x peer in {local,p}; all write orders; actions drawn per set", "sets": n, "exhaustive": true}
 }
 
+// byNameProbe replays a fixed witness on every run: Store.IntentionMutation identifies the source of an
+// upsert / delete by its ServiceName only (UpsertSourceByName / DeleteSourceByName ignore the peer), so a
+// by-name mutation meant for the local `web -> api` hits the peer intention `p1/web -> api` when that one is
+// stored first. The lines are compared with the model (which mirrors the code); the outcome is tagged, not
+// raised, because the property statement is about decisions for a given stored set (see the final report).
+func byNameProbe(run *hx.Run) {
+	for k, order := range [][]ixn{
+		{{peer: "p1", src: "web", dst: "api", act: "d"}, {src: "web", dst: "api", act: "a"}},
+		{{src: "web", dst: "api", act: "a"}, {peer: "p1", src: "web", dst: "api", act: "d"}},
+	} {
+		t := newSUT(run, true)
+		t.ent(run, "api", order)
+		t.del(run, "api", "web")
+		left := t.list(run)
+		t.authz(run, "p1", "web", "api", true, false)
+		t.authz(run, "", "web", "api", false, false)
+		if len(left) == 1 && left[0].peer == "" {
+			run.Tag(fmt.Sprintf("finding:delete-by-name-removed-peer-source-instead-of-local:order%d", k))
+		} else if len(left) == 1 {
+			run.Tag(fmt.Sprintf("probe:delete-by-name-removed-local-source:order%d", k))
+		}
+		t2 := newSUT(run, true)
+		t2.ent(run, "api", []ixn{{peer: "p1", src: "web", dst: "api", act: "d"}})
+		t2.up(run, ixn{src: "web", dst: "api", act: "a"})
+		if left := t2.list(run); len(left) == 1 {
+			run.Tag("finding:upsert-by-name-replaced-peer-source")
+		}
+	}
+	run.Case("by-name-probe", true)
+}
+
 func localL4(set []ixn) bool {
 	for _, x := range set {
 		if x.peer != "" || x.perms > 0 {
@@ -931,22 +976,23 @@ func localL4(set []ixn) bool {
 func main() {
 	run := hx.Start()
 	run.Rule = "one case = one set of intentions with distinct (peer, source, destination) written in several orders and representations into real state stores (or one random edit history), each store asked every match / list / decision query over the case's names; distinct by the set (or history); non-trivial = at least one decision is made by a stored intention rather than the default policy"
-	n := run.Scale(60, 700)
+	byNameProbe(run)
+	n := run.Scale(250, 1500)
 	for i := 0; i < n; i++ {
 		r := run.RNG.Fork(uint64(i))
 		switch i % 5 {
-		case 0, 1: // local L4 sets: every representation must agree
+		case 0: // local L4 sets: every representation must agree
 			names := pickNames(r, 2+r.Intn(2))
 			set := genSet(r, names, nil, false, 1+r.Intn(5))
 			permCase(run, r, set, names, []string{"up", "ent", "legacy", "lcreate"}, run.Scale(3, 6), "local-l4")
-		case 2: // peers and L7: config entries only
+		case 1: // peers and L7: config entries only
 			names := pickNames(r, 2+r.Intn(2))
 			set := genSet(r, names, peerPool, true, 1+r.Intn(6))
-			permCase(run, r, set, names, []string{"ent"}, run.Scale(4, 24), "peer-l7")
-		case 3: // local with L7: upserts and whole entries
+			permCase(run, r, set, names, []string{"ent"}, run.Scale(4, 12), "peer-l7")
+		case 2: // local with L7: upserts and whole entries
 			names := pickNames(r, 2+r.Intn(2))
 			set := genSet(r, names, nil, true, 1+r.Intn(5))
-			permCase(run, r, set, names, []string{"up", "ent"}, run.Scale(4, 12), "local-l7")
+			permCase(run, r, set, names, []string{"up", "ent"}, run.Scale(4, 8), "local-l7")
 		default:
 			historyCase(run, r)
 		}
